@@ -5,7 +5,7 @@ CONSTANTS
   DevMultiDrop = TRUE
   DevIncomingDrop = TRUE
   DevManagedEmpty = TRUE
-  DevPollMultiLen = TRUE
+  DevPollMultiLen = FALSE
   Part = "dgram"
   Feat = {}
   Sizes = {0, 1, 4}
@@ -18,4 +18,4 @@ CONSTANTS
   MaxDg = 2
 SPECIFICATION SpecDgram
 VIEW mcview
-INVARIANTS TypeOk DgExact
+INVARIANTS TypeOk DgExact DgPayloadDelivered
